@@ -167,6 +167,11 @@ type replica struct {
 	nextBase  int64
 }
 
+// SetOperation builds the gossip form of a Set from what a node's state shows for it.
+func SetOperation(key, value string, ver int64, lease uint32) verifx.Operation {
+	return Op{Key: key, Value: value, Version: ver, Lease: lease}.toOperation()
+}
+
 func (o Op) toOperation() verifx.Operation {
 	op := verifx.Operation{
 		Change:      xkv.Change{Key: []byte(o.Key), Variant: change.VariantSet},
